@@ -3,7 +3,7 @@
    check_case: the model computes what the implementation did.
    spec_case : what the implementation did satisfies the property, judged WITHOUT the automata:
                from the packets the clients sent and the bytes the handlers wrote alone. *)
-From Sdns Require Export Common.Base Gen.C10 C10.Model C10.ModelStream C10.ModelShare C10.ModelPool C10.ModelChains C10.ModelEdns.
+From Sdns Require Export Common.Base Gen.C10 C10.Model C10.ModelStream C10.ModelShare C10.ModelPool C10.ModelChains C10.ModelEdns C10.ModelFlight.
 Open Scope N_scope.
 
 (* byte strings travel run-length encoded: (count, byte) *)
@@ -51,6 +51,11 @@ Inductive eserveN :=
   ES (qopt qdo : bool) (qcookie : list N) (qnsid qka qcd qad qtcp : bool) (qsize : N) (path : N)
      (mid : eviewN) (rep : option (bool * bool * list N * bool * bool)) (post : eviewN).
 
+(* collapsed lookups: the steps of SingleflightWrapper / singleflight.Group as the driver took them;
+   per caller: number, key asked, and what it came back with (call number of the result object,
+   the key that call's closure was started for, shared, leader) or nothing *)
+Inductive fopN := FJ (k key : N) | FF (c : N) | FG (key : N) | FR (k : N) | FC (k : N).
+
 Inductive case :=
   (* sequential operations on the real udpEngine pieces: per client address the datagrams it
      received in order; the slabs at the end; did anything panic *)
@@ -80,7 +85,9 @@ Inductive case :=
   (* n waiters of one shared lookup: result id/body, waiter ids, shared flag, what each waiter's
      caller appended to ITS message right after the return; observed (id, body) each waiter
      holds when all are done, and whether all returned messages are distinct objects *)
-| CaseShare (rid : N) (body : rle) (ids : list N) (shared : bool) (edits : list rle) (got : list (N * rle)) (distinct : bool).
+| CaseShare (rid : N) (body : rle) (ids : list N) (shared : bool) (edits : list rle) (got : list (N * rle)) (distinct : bool)
+  (* callers of the real SingleflightWrapper.TimedDoChanWithRole under a deterministic interleaving *)
+| CaseFlight (ops : list fopN) (obs : list (N * N * option (N * N * bool * bool))).
 
 (* ------------------------------------------------------------------ helpers *)
 Fixpoint list_eqb {A B} (eqb : A -> B -> bool) (a : list A) (b : list B) : bool :=
@@ -305,6 +312,21 @@ Definition wview_eqb (a b : N * bool * N * bool * bool * bool * bool * bool) : b
   let '(r2, t2, i2, n2, w2, d2, m2, x2) := b in
   (r1 =? r2) && Bool.eqb t1 t2 && (i1 =? i2) && Bool.eqb n1 n2 && Bool.eqb w1 w2 && Bool.eqb d1 d2 && Bool.eqb m1 m2 && Bool.eqb x1 x2.
 
+Definition fop_of (o : fopN) : fop :=
+  match o with
+  | FJ k key => FJoin (N.to_nat k) key | FF c => FFinish (N.to_nat c) | FG key => FForget key
+  | FR k => FRecv (N.to_nat k) | FC k => FCancel (N.to_nat k)
+  end.
+Definition flight_obs_ok (s : fstate) (o : N * N * option (N * N * bool * bool)) : bool :=
+  let '(k, key, r) := o in
+  match caller_find (N.to_nat k) (f_callers s), r with
+  | Some (FGot c sh ld), Some (c', ckey, sh', ld') =>
+      (N.of_nat c =? c') && Bool.eqb sh sh' && Bool.eqb ld ld' &&
+      match nth_error (f_calls s) c with Some cl => (fc_key cl =? ckey) && (fc_key cl =? key) | None => false end
+  | Some (FCancelled _), None => true
+  | _, _ => false
+  end.
+
 (* ------------------------------------------------------------------ check_case *)
 Definition check_case (c : case) : bool :=
   match c with
@@ -355,6 +377,13 @@ Definition check_case (c : case) : bool :=
                            | None => false
                            end) ps got &&
       Bool.eqb distinct (shared || (n <=? 1)%nat)
+  | CaseFlight ops obs =>
+      (* every step the driver took is ENABLED in the model, and every caller came back with
+         exactly what the model says: that call's object, that flag, that role — or nothing *)
+      match fsteps_strict f_init (map fop_of ops) with
+      | Some s => (length (f_callers s) =? length obs)%nat && forallb (flight_obs_ok s) obs
+      | None => false
+      end
   end.
 
 (* ------------------------------------------------------------------ spec_case *)
@@ -416,4 +445,13 @@ Definition spec_case (c : case) : bool :=
       list_eqb (fun ie g => (fst ie =? fst g) && bytes_eqb (unrle body ++ unrle (snd ie)) (unrle (snd g)))
                (combine ids (edits ++ repeat [] (length ids - length edits))) got &&
       (distinct || (length ids <=? 1)%nat)
+  | CaseFlight ops obs =>
+      (* judged on the observation alone: a result is the answer to the key its holder asked for;
+         two holders of ONE result object were both told it is shared and are not both its
+         leader; a holder told "not shared" holds it alone *)
+      let held := flat_map (fun o => match o with (k, key, Some (c, ckey, sh, ld)) => [(k, key, c, ckey, sh, ld)] | _ => [] end) obs in
+      forallb (fun a => let '(k, key, c, ckey, sh, ld) := a in
+                 (key =? ckey) &&
+                 forallb (fun b => let '(k2, _, c2, _, sh2, ld2) := b in
+                            (k =? k2) || negb (c =? c2) || (sh && sh2 && negb (ld && ld2))) held) held
   end.
